@@ -109,8 +109,55 @@ def fwd_unit(mode):
     cvf(Fn("double_in_place", props=(tag,), preamble=bu,
            ensures=("r is Ok ==> " if sound else "r is Ok, ") + "add_post(pv(*old(self)), pv(*old(self)), pv(*final(self)))"))
     cvf(Fn("negate", props=(tag,), preamble=bu, ensures=f"match r {{ Ok(v) => pv(v) == te_neg(pv(*self)), {E_} }}"))
+    extra_lem = ""
+    if sound:
+        # ---- AllocVar<Element>::new_variable, soundness reading (C14: "the curve coordinates offered when an element is
+        # witnessed"): whatever coordinates and whatever encoding the prover offers, the variable handed back in Witness
+        # mode is the in-circuit decoding of SOME field element
+        S_ = "s_var.val()"
+        dec_post = f"""match r {{ Ok(e) => !is_neg(s_var.val()) && exists|v0: int| #[trigger] isqrt_weak(dec_den(s_var.val()), true, v0)
+                             && pv(e) == spec_decode_v(s_var.val(), v0), Err(_) => true }}"""
+        pf = None
+        for it_ in r1.unit(mode).items:
+            if it_.mode == "verify" and it_.file == INN:
+                for f_ in it_.fns:
+                    if f_.name == "decompress_from_field" and not f_.variant:
+                        pf = f_
+        if pf is None or re.sub(r'\s+', ' ', pf.ensures).strip() != re.sub(r'\s+', ' ', dec_post).strip():
+            from vx.rsscan import LostAnchor
+            raise LostAnchor("imported contract r1cs_sound :: decompress_from_field differs from the proving unit's contract")
+        items.append(Item(INN, "impl ElementVar", [Fn("decompress_from_field", ensures=dec_post)], mode="stub", proved_in="r1cs_sound"))
+        extra_lem = _isqrt_weak_spec() + """
+pub open spec fn dec_rel_s(s: int, p: P4) -> bool { !is_neg(s) && exists|v0: int| #[trigger] isqrt_weak(dec_den(s), true, v0) && p == spec_decode_v(s, v0) }
+// q is the in-circuit decoding of s, or an on-curve point that the equality gadget identifies with it (the same group
+// element: decaf equality on curve points identifies exactly the two representatives P and P + (0, -1))
+pub open spec fn wit_rel_s(s: int, q: P4) -> bool { exists|p: P4| #[trigger] dec_rel_s(s, p) && (q == p || (spec_eq(q, p) && on_curve(q))) }
+impl ElementVar {
+    // EqGadget::enforce_equal (arkworks default method) = conditional_enforce_equal(other, &Boolean::TRUE), whose contract is
+    // proved in r1cs_sound
+    #[verifier::external_body]
+    pub fn enforce_equal(&self, other: &ElementVar) -> (r: Result<(), SynthesisError>)
+        ensures r is Ok ==> spec_eq(pv(*self), pv(*other))
+    { unimplemented!() }
+}
+"""
+        nvs = [("R7", r'core::borrow::Borrow<', 'Borrow<'),
+               ("R7", r'impl\s+Into<ark_relations::r1cs::Namespace<Fq>>', 'Namespace<Fq>'), ("R7", r'\bcs\.into\(\)', 'cs'),
+               ("R8", r'\bns!\(\s*(\w+)\s*,\s*"[^"]*"\s*\)', r'\1.clone()'),
+               ("R7", r'\bAffineVar::new_variable_omit_prime_order_check\(', 'Decaf377EdwardsVar::new_variable_omit_prime_order_check('),
+               # R20: name the decoded variable where it is produced, so that the existential witness does not depend on local names
+               ("R20", r'ElementVar::decompress_from_field\((\w+)\)\?',
+                r'{ let ghost gs_ = \1.val(); let c_ = ElementVar::decompress_from_field(\1)?; proof { assert(dec_rel_s(gs_, pv(c_))); gs2_ = gs_; gp2_ = pv(c_); } c_ }'),
+               ("R20", r'(\w+)\.enforce_equal\(&(\w+)\)\?;', r'\1.enforce_equal(&\2)?; proof { assert(spec_eq(pv(\2), pv(\1))) by { assert(fmul(pv(\2).x, pv(\1).y) == fmul(pv(\1).y, pv(\2).x)); assert(fmul(pv(\2).y, pv(\1).x) == fmul(pv(\1).x, pv(\2).y)); } }')]
+        items.append(Item(INN, "impl AllocVar<Element, Fq> for ElementVar", [Fn(
+            "new_variable", props=(tag,), preamble=bu + " let ghost mut gs2_: int = 0; let ghost mut gp2_: P4 = id4();", subst=nvs,
+            epilogue="match &r_ { Ok(e) => { if mode is Witness { assert(dec_rel_s(gs2_, gp2_)); assert(wit_rel_s(gs2_, pv(*e))); } } Err(_) => {} }",
+            requires="call_requires(f, ()), !(mode is Input)",
+            ensures="match r { Ok(e) => mode is Witness ==> exists|s: int| #[trigger] wit_rel_s(s, pv(e)), Err(_) => true }",
+            tag="C14: the curve coordinates offered when an element is witnessed cannot be forged (any hint pair, any offered point)")],
+            header_out="impl ElementVar"))
     u = Unit(name=f"r1cs_fwd_{mode}", preludes=r1.base_preludes() + [("curve_spec.rs", None), ("r1cs.rs", None), ("r1cs_group.rs", None)],
-             items=items, lemmas=lem + FWD_LEMMAS + "\n".join(spec_impls), params=fq, global_subst=[])
+             items=items, lemmas=lem + FWD_LEMMAS + extra_lem + "\n".join(spec_impls), params=fq, global_subst=[])
     u.raw = [(INN, "struct", "ElementVar")]
     u.raw_strip = ("Clone",)
     u.tail_assert = True
@@ -183,6 +230,11 @@ pub open spec fn ov(e: ElementVar) -> P4 { lz_pt(e.inner) }
 // COMPL: every forcing of this variable succeeds
 pub open spec fn ok_var(e: ElementVar) -> bool { lz_from_enc(e.inner) ==> spec_decode(lz_enc(e.inner)) is Some }
 """
+
+
+def _isqrt_weak_spec():
+    m = re.search(r'// what the four-case constraint block.*?\npub open spec fn isqrt_weak.*?\n}\n', r1.R1CS_LEMMAS, re.S)
+    return m.group(0)
 
 
 def _ell_spec():
